@@ -79,48 +79,51 @@ def updateVB (svc : SvcName) (prov owner : Addr) (dep : Option Nat) (text : Opti
   prov ≠ "" && owner ≠ "" && validName svc && depositVB dep &&
   (match text with | none => true | some t => pricingTextOk t)
 
+/-- the price terms in force after an update: the stored ones, or the parse of the new text -/
+def newTerms (s : State) (svc : SvcName) (prov : Addr) (text : Option PricingText) : Except Res Pricing :=
+  match text with
+  | none => .ok (match Map.get s.pricing (svc, prov) with
+      | some p => p
+      | none => { base := 0, promT := [], promV := [] })
+  | some t => match parsePricing t with
+    | .bad => .error (.err .invalidPricing)
+    | .overflow => .error (.panic "NewIntFromBigInt() out of bound")
+    | .ok p => if !validPricing p then .error (.err .invalidPricing) else .ok p
+
+/-- the minimum-deposit check of an update (only for an available binding that was changed); `none` = passes -/
+def minCheck (params : Params) (b : Binding) (updated : Bool) (p : Pricing) : Option Res :=
+  if b.avail ∧ updated then
+    match minDeposit params p with
+    | none => some (.panic "Int overflow")
+    | some md => if b.deposit < md then some (.err .invalidDeposit) else none
+  else none
+
 def update (s : State) (svc : SvcName) (prov owner : Addr) (dep : Option Nat) (text : Option PricingText) (qos : Nat) : Out :=
   match Map.get s.bindings (svc, prov) with
   | none => fail s .unknownBinding
   | some b =>
     if owner ≠ b.owner then fail s .notAuthorized
     else if qos ≠ 0 ∧ (qos : Int) > s.params.maxTimeout then fail s .invalidQoS
+    else if dep.isSome ∧ b.deposit + dep.getD 0 ≥ intLimit then panicOut s "Int overflow"
     else
-      let b1 := if qos ≠ 0 then { b with qos := qos } else b
       let d := dep.getD 0
-      if dep.isSome ∧ b1.deposit + d ≥ intLimit then panicOut s "Int overflow"
-      else
-        let b2 := { b1 with deposit := b1.deposit + d }
-        let stored := match Map.get s.pricing (svc, prov) with
-          | some p => p
-          | none => { base := 0, promT := [], promV := [] }
-        let parsed : Except Res Pricing := match text with
-          | none => .ok stored
-          | some t => match parsePricing t with
-            | .bad => .error (.err .invalidPricing)
-            | .overflow => .error (.panic "NewIntFromBigInt() out of bound")
-            | .ok p => if !validPricing p then .error (.err .invalidPricing) else .ok p
-        match parsed with
-        | .error r => (s, r, [])
-        | .ok p =>
-          let b3 := match text with | some t => { b2 with text := t } | none => b2
-          let updated := qos ≠ 0 ∨ dep.isSome ∨ text.isSome
-          let minOk : Except Res Unit :=
-            if b3.avail ∧ updated then
-              match minDeposit s.params p with
-              | none => .error (.panic "Int overflow")
-              | some md => if b3.deposit < md then .error (.err .invalidDeposit) else .ok ()
-            else .ok ()
-          match minOk with
-          | .error r => (s, r, [])
-          | .ok _ =>
-            match (if dep.isSome then bankSend s.bank owner s.cfg.deposit d else some s.bank) with
-            | none => fail s .insufficientFunds
-            | some bank' =>
-              let s1 := { s with bank := bank' }
-              let s2 := if text.isSome then { s1 with pricing := Map.set s1.pricing (svc, prov) p } else s1
-              let s3 := if updated then { s2 with bindings := Map.set s2.bindings (svc, prov) b3 } else s2
-              (s3, .ok, if d = 0 then [] else [.transfer owner s.cfg.deposit d])
+      let b3 : Binding := { b with qos := if qos ≠ 0 then qos else b.qos, deposit := b.deposit + d,
+                                   text := match text with | some t => t | none => b.text }
+      let updated : Bool := decide (qos ≠ 0) || dep.isSome || text.isSome
+      match newTerms s svc prov text with
+      | .error r => (s, r, [])
+      | .ok p =>
+        match minCheck s.params b3 updated p with
+        | some r => (s, r, [])
+        | none =>
+          match (if dep.isSome then bankSend s.bank owner s.cfg.deposit d else some s.bank) with
+          | none => fail s .insufficientFunds
+          | some bank' =>
+            if updated then
+              ({ s with bank := bank', bindings := Map.set s.bindings (svc, prov) b3,
+                        pricing := if text.isSome then Map.set s.pricing (svc, prov) p else s.pricing },
+               .ok, if d = 0 then [] else [.transfer owner s.cfg.deposit d])
+            else ({ s with bank := bank' }, .ok, [])
 
 /-! ### set withdraw address -/
 def setwdVB (owner addr : Addr) : Bool := owner ≠ "" && addr ≠ ""
